@@ -33,7 +33,7 @@ EX_MISC = ['se ai', 'se noai', 'se ic', 'se noic', 'se hl', 'se nohl', 'se hll',
            '', ' ', ':', '::', '|', '||', 'd|d', 'p|p|p', '"comment', 'p "c', 'u', 'u', 'redo', 'redo', 'u|u', 'ec', 'ec hi', 'ec %', 'ec #', 'unknowncmd', 'zz', '1', '$', '0', '5', '+', '-', '+5', '-5',
            's', 's/a', 's/a/', 's/a/b', 's//x/', 's/a/b/g', '&', '~', 's/\\(/x/', 's/(/x/', 's/[/x/', 's/a{3,1}/x/', 's/a{1,200}/x/', 's/x{,1000}/y/', 's/a{0,129}//', 'rs a\n@a\n.\n@a', 'rs a\n@b\n@a\n.\nrs b\np\n.\n@a', 's/a/\\1/', 's/(a)|b/\\1\\2\\9/g', 's/x*/-/g', 's/$/\\n/', 's/^/\\//',
            'g', 'g/', 'g/a', 'g/a/', 'g//d', 'g/a/g/b/d', 'g/a/g/b/g/c/p', 'g/a/a', 'g/a/i', 'g/a/c', 'g/./d|u', 'g/a/u', 'g/a/e f2', 'g/a/b 2', 'v/a/d', 'g!/a/d', 'g/a/s//x/|s/x/y/', 'g/a/-1d', 'g/a/+1d', 'g/a/1,$d',
-           's/(((a{128}){128}){128}){64}/x/', 'g/(((a{128}){128}){128}){128}/p', '/((((a{128}){128}){128}){16}){9}/p', 's/(((a{0,128}){0,128}){0,128}){0,77}//', 'g/^abcdefgh/p', 'v/^hello World$/d', '%s/^abc$/x/', '%s/^foo_bar\\>/x/', '/^abcdefghijkl/p', '?^\\<foobarbaz$?p', 'g/xxxxxxxxxxxxxxxxxxxx$/p', '%s/\\<abcdefghijklmnop\\>//g',
+           'g/./g/./g/./g/./g/./g/./g/./g/./1,$g/./p', 'g/./g/./g/./g/./g/./g/./g/./g/./g/./g/./g/./g/./g/./g/./g/./g/./g/./g/./g/./g/./g/./g/./g/./g/./g/./g/./g/./g/./g/./g/./g/./g/./g/./s/$/!/', 's/(((a{128}){128}){128}){64}/x/', 'g/(((a{128}){128}){128}){128}/p', '/((((a{128}){128}){128}){16}){9}/p', 's/(((a{0,128}){0,128}){0,128}){0,77}//', 'g/^abcdefgh/p', 'v/^hello World$/d', '%s/^abc$/x/', '%s/^foo_bar\\>/x/', '/^abcdefghijkl/p', '?^\\<foobarbaz$?p', 'g/xxxxxxxxxxxxxxxxxxxx$/p', '%s/\\<abcdefghijklmnop\\>//g',
            'a', 'i', 'c', '0a', '0i', '0c', '$a', '1,2c', '99a', 'a|p', 'rs a', 'rs', 'rs \\x']
 
 VI_ODD = ['/^abcdefgh\n', '?^abc$\n', '/^foo_bar_baz\\>\n', '\x1b', ':\x1b', '/\x1b', '?\x1b', '!\x1b', 'd\x1b', 'c\x1b', '"\x1b', '"ad\x1b', 'r\x1b', 'f\x1b', 'm\x1b', "'\x1b", '`\x1b', 'z\x1b', 'g\x1b', 'Z\x1b', '@\x1b', 'q\x1b', '\x17\x1b', '[\x1b', ']\x1b',
